@@ -47,7 +47,7 @@ namespace PhQ {
 /// model for a compressible fluid. It is similar to the model for an incompressible Newtonian
 /// fluid, but also includes the effect of the volumetric component of the strain rate tensor in
 /// addition to its deviatoric component.
-template <typename NumericType = double>
+template <typename NumericType>
 class ConstitutiveModel::CompressibleNewtonianFluid : public ConstitutiveModel {
 public:
   /// \brief Default constructor. Constructs a compressible Newtonian fluid constitutive model with
